@@ -30,7 +30,14 @@ PatU == <<
     HP(<<"a", ".", "i", "o">>, <<"8", "0", "8", "0">>),         \*  9  a.io:8080
     H(<<"A", ".", "i", "o">>),                                  \* 10  A.io
     HP(<<"a", ".", "i", "o">>, <<"4", "4", "3">>),              \* 11  a.io:443
-    HP(<<"*", ".", "i", "o">>, <<"8", "0", "8", "0">>)          \* 12  *.io:8080
+    HP(<<"*", ".", "i", "o">>, <<"8", "0", "8", "0">>),         \* 12  *.io:8080
+    H(<<"[", ":", ":", "1", "]">>),                             \* 13  [::1]       IPv6 literal
+    HP(<<"[", ":", ":", "1", "]">>, <<"8", "0">>),              \* 14  [::1]:80
+    HP(<<"[", ":", ":", "1", "]">>, <<"8", "0", "8", "0">>),    \* 15  [::1]:8080
+    H(<<"[", ":", ":", "A", "]">>),                             \* 16  [::A]       upper-case hex
+    H(<<"{", "b", ",", "c", "}", ".", "a", ".", "i", "o">>),    \* 17  {b,c}.a.io  alternatives
+    H(<<"?", ".", "a", ".", "i", "o">>),                        \* 18  ?.a.io      any one character
+    H(<<"[", "b", "c", "]", ".", "a", ".", "i", "o">>)          \* 19  [bc].a.io   character class
 >>
 \* route paths
 PathU == <<
@@ -55,7 +62,15 @@ HostU == <<
     HP(<<"a", ".", "i", "o">>, <<"8", "0">>),                   \*  8  a.io:80
     HP(<<"a", ".", "i", "o">>, <<"4", "4", "3">>),              \*  9  a.io:443
     HP(<<"a", ".", "i", "o">>, <<"8", "0", "8", "0">>),         \* 10  a.io:8080
-    HP(<<"A", ".", "i", "O">>, <<"8", "0", "8", "0">>)          \* 11  A.iO:8080
+    HP(<<"A", ".", "i", "O">>, <<"8", "0", "8", "0">>),         \* 11  A.iO:8080
+    H(<<"[", ":", ":", "1", "]">>),                             \* 12  [::1]
+    HP(<<"[", ":", ":", "1", "]">>, <<"8", "0">>),              \* 13  [::1]:80
+    HP(<<"[", ":", ":", "1", "]">>, <<"4", "4", "3">>),         \* 14  [::1]:443
+    HP(<<"[", ":", ":", "1", "]">>, <<"8", "0", "8", "0">>),    \* 15  [::1]:8080
+    H(<<"[", ":", ":", "a", "]">>),                             \* 16  [::a]
+    HP(<<"[", ":", ":", "A", "]">>, <<"8", "0">>),              \* 17  [::A]:80
+    H(<<"c", ".", "a", ".", "i", "o">>),                        \* 18  c.a.io
+    H(<<"d", ".", "a", ".", "i", "o">>)                         \* 19  d.a.io
 >>
 \* request paths
 ReqPathU == <<
@@ -82,8 +97,10 @@ RouteIds == {i \in 1..(Len(PatU) * NPath) : RPat(i) \in PatSel /\ RPath(i) \in P
 MCAllPats  == 1..Len(PatU)
 MCAllPaths == 1..Len(PathU)
 MCAllHosts == 1..Len(HostU)
-MCCorePats  == {1, 2, 3, 4, 6, 8, 10}
+MCCorePats  == {1, 2, 3, 4, 6, 8, 10, 13, 17, 18}
 MCCorePaths == {1, 2, 4, 6}
+MCMiniPats  == {1, 2, 3, 4, 6, 13, 17}
+MCMiniPaths == {1, 2, 4, 6}
 
 VARIABLES tbl,   \* set of route indices
           ph     \* "build" | "ask" | "done"
@@ -98,27 +115,28 @@ Universe == [universe |-> [pats  |-> [i \in 1..Len(PatU) |-> [name |-> PatU[i].n
                            combos |-> [i \in 1..Len(ComboU) |-> [m |-> ComboU[i][1], g |-> IF ComboU[i][2] THEN 1 ELSE 0]],
                            npath |-> NPath]]
 
-\* normal forms of the whole universe, computed once (constant definitions)
+\* normal forms and host classifications of the whole universe, computed once (constant definitions)
 NRouteU == [tls \in BOOLEAN |-> [i \in 1..(Len(PatU) * NPath) |-> NRoute(RouteOf(i), tls)]]
 NReqU   == [tls \in BOOLEAN |-> [hi \in 1..Len(HostU) |-> [q \in 1..Len(ReqPathU) |->
                 NReq(Req(HostU[hi], tls, ReqPathU[q]))]]]
+KindU   == [tls \in BOOLEAN |-> [pi \in 1..Len(PatU) |-> [hi \in 1..Len(HostU) |-> [g \in BOOLEAN |->
+                MatchKind(HostStr(PatU[pi], tls), HostStr(HostU[hi], tls), g)]]]]
 NT(t, tls) == {NRouteU[tls][i] : i \in t}
+KT(t, tls, hi, g) == {[r |-> NRouteU[tls][i].r, h |-> NRouteU[tls][i].h, p |-> NRouteU[tls][i].p,
+                       lp |-> NRouteU[tls][i].lp, mk |-> KindU[tls][RPat(i)][hi][g]] : i \in t}
 
-\* expected result of one lookup: route index, 0 = no route may be returned, -1 = not well posed.
-\* The routes whose host does not match can be dropped before choosing (they are no
-\* candidates); doing that once per (host, TLS, glob) keeps the generator fast.  WellDefined
-\* checks that it does not change the winners.
-HostCandN(nt, s, glob) == {v \in nt : v.h = <<>> \/ HostMatchN(v.h, s, glob)}
-Expect(hc, posed, q, m, glob) ==
+\* expected result of one lookup: route index, 0 = no route may be returned, -1 = not well posed
+Expect(kt, posed, q, m) ==
     IF ~posed THEN -1
-    ELSE LET w == WinnersN(hc, q, m, glob) IN IF w = {} THEN 0 ELSE (CHOOSE v \in w : TRUE).r.id
+    ELSE LET w == WinnersK(kt, q, m) IN IF w = {} THEN 0 ELSE (CHOOSE v \in w : TRUE).r.id
 Rows(t, hi, tls) ==
     LET nt == NT(t, tls)
-        hc == [g \in BOOLEAN |-> HostCandN(nt, NReqU[tls][hi][1].h, g)]
-        wp == [m \in Matchers |-> WellPosedN(nt, m)] IN
+        kt == [g \in BOOLEAN |-> KT(t, tls, hi, g)]
+        wp == [m \in Matchers |-> WellPosedN(nt, m)]
+        wa == [g \in BOOLEAN |-> WildAmbiguousK(kt[g])] IN
     [q \in 1..Len(ReqPathU) |->
         [k \in 1..Len(ComboU) |->
-            Expect(hc[ComboU[k][2]], wp[ComboU[k][1]], NReqU[tls][hi][q], ComboU[k][1], ComboU[k][2])]]
+            Expect(kt[ComboU[k][2]], wp[ComboU[k][1]] /\ ~wa[ComboU[k][2]], NReqU[tls][hi][q], ComboU[k][1])]]
 \* Table.LookupHost(server name): route index that must be returned, 0 = no claim, -1 = not posed
 ExpectSni(t, h) ==
     IF h.port # <<>> THEN -1
@@ -162,16 +180,33 @@ QSpec == QInit /\ [][QNext]_vars
 WellDefined ==
     ph = "ask" =>
       \A hi \in HostSel, tls \in BOOLEAN, q \in 1..Len(ReqPathU), k \in 1..Len(ComboU) :
-        LET nt == NT(tbl, tls) nq == NReqU[tls][hi][q] m == ComboU[k][1] g == ComboU[k][2] IN
-        WellPosedN(nt, m) => /\ BestUniqueN(nt, nq, m, g) /\ BestSoundN(nt, nq, m, g)
-                             /\ WinnersN(HostCandN(nt, nq.h, g), nq, m, g) = WinnersN(nt, nq, m, g)
-\* the constant tables agree with the definitions on un-normalised data (spot check on each table)
+        LET nt == NT(tbl, tls) nq == NReqU[tls][hi][q] m == ComboU[k][1] g == ComboU[k][2]
+            kt == KT(tbl, tls, hi, g) IN
+        WellPosedK(nt, kt, m) => BestUniqueK(kt, nq, m) /\ BestSoundK(kt, nq, m)
+\* the constant tables agree with the definitions on un-normalised data (checked on each table)
 TablesAgree ==
     ph = "ask" =>
       \A tls \in BOOLEAN :
         /\ NT(tbl, tls) = NTable(Table(tbl), tls)
         /\ \A hi \in HostSel, q \in 1..Len(ReqPathU) : NReqU[tls][hi][q] = NReq(Req(HostU[hi], tls, ReqPathU[q]))
-        /\ \A m \in Matchers : WellPosed(Table(tbl), tls, m) = WellPosedN(NT(tbl, tls), m)
+        /\ \A hi \in HostSel, g \in BOOLEAN :
+             /\ KT(tbl, tls, hi, g) = KOf(Table(tbl), Req(HostU[hi], tls, <<"/">>), g)
+             /\ \A m \in Matchers : WellPosed(Table(tbl), Req(HostU[hi], tls, <<"/">>), m, g)
+                                    = WellPosedK(NT(tbl, tls), KT(tbl, tls, hi, g), m)
+\* the glob language: what the patterns of the universe denote, spelled out
+GlobFacts ==
+    LET b == <<"b", ".", "a", ".", "i", "o">>  c == <<"c", ".", "a", ".", "i", "o">>
+        d == <<"d", ".", "a", ".", "i", "o">>  v6 == <<"[", ":", ":", "1", "]">>
+        P(i) == HostStr(PatU[i], FALSE) IN
+    /\ GlobMatch(P(17), b) /\ GlobMatch(P(17), c) /\ ~GlobMatch(P(17), d) /\ ~GlobMatch(P(17), <<"a", ".", "i", "o">>)
+    /\ GlobMatch(P(18), b) /\ GlobMatch(P(18), d) /\ ~GlobMatch(P(18), <<"x", "a", ".", "i", "o">>)
+    /\ GlobMatch(P(19), b) /\ GlobMatch(P(19), c) /\ ~GlobMatch(P(19), d)
+    /\ GlobMatch(P(4), b) /\ ~GlobMatch(P(4), <<"a", ".", "i", "o">>) /\ GlobMatch(P(6), <<"a", ".", "i", "o">>)
+    /\ GlobMatch(P(7), v6) /\ ~GlobMatch(P(13), v6)          \* as a glob "[::1]" is a character class ...
+    /\ MatchKind(P(13), v6, TRUE) = "exact" /\ MatchKind(P(13), v6, FALSE) = "exact"   \* ... but it IS the host [::1]
+    /\ MatchKind(P(17), b, TRUE) = "wild" /\ MatchKind(P(17), b, FALSE) = "no"
+    /\ LitSuffixLen(P(17)) = 5 /\ LitSuffixLen(P(4)) = 5 /\ LitSuffixLen(P(3)) = 3 /\ LitSuffixLen(P(7)) = 0 /\ LitSuffixLen(P(2)) = 4
+ASSUME GlobFacts
 \* the universe is not vacuous: route identities are distinct
 DistinctRoutes == \A i, j \in RouteIds : i # j => (RouteOf(i).h # RouteOf(j).h \/ RouteOf(i).p # RouteOf(j).p)
 ASSUME DistinctRoutes
